@@ -133,10 +133,12 @@ function genSpec(seed, idx) {
       const o = rng.pick(opaques);
       params.push({ name: "p" + params.length, kind: "opaque", ty: o.name, lt: rng.pick(namedImpl), args: o.lts.map(() => anyLt()) });
     }
-    let rkind = rng.pick(["box", "box", "ref", "optbox", "optref", "resbox", "struct", "struct", "resstruct"]);
+    let rkind = rng.pick(["box", "box", "ref", "optbox", "optref", "resbox", "struct", "struct", "resstruct", "reserr"]);
     if ((rkind === "struct" || rkind === "resstruct") && !outs.length) rkind = "box";
     const ro = rkind === "struct" || rkind === "resstruct" ? rng.pick(outs) : rng.pick(opaques);
     const ret = { kind: rkind, ty: ro.name, lt: rkind === "ref" || rkind === "optref" ? anyLt() : null, args: ro.lts.map(() => anyLt()) }; // ('static is not generated: the JS backend panics on it, which is C15's subject)
+    // Result<Box<T>, Box<E>>: the error arm is an opaque that may borrow from the inputs as well
+    if (rkind === "reserr") { const eo = rng.pick(opaques); ret.err = { ty: eo.name, args: eo.lts.map(() => anyLt()) }; }
     // bounds: the ones definitions force (they must be spelled out), plus random extra ones
     const bounds = [];
     const addBoundLate = [];
@@ -147,6 +149,8 @@ function genSpec(seed, idx) {
     const useDefBounds = (tyName, args) => { for (const [l, sh] of defBoundsOf(tyName, args)) addBound(l, sh); };
     for (const p of params) if (p.kind !== "slice") useDefBounds(p.ty, p.args);
     useDefBounds(ret.ty, ret.args);
+    if (ret.err) useDefBounds(ret.err.ty, ret.err.args);
+    const forced = bounds.map((b) => b.slice()); // bounds the used types' definitions force the method to restate
     // swarm: sparse or dense bound graphs (dense ones produce diamonds, cycles and re-converging paths)
     const mode = rng.below(6);
     const nExtra = mode < 2 ? 3 + rng.below(5) : rng.below(4);
@@ -168,7 +172,7 @@ function genSpec(seed, idx) {
     if (isStatic && (rkind === "box" || rkind === "resbox") && ret.ty === owner.name && !methods.some((x) => x.owner === owner.name && x.special === "constructor") && rng.chance(1, 2)) special = "constructor";
     else if (!isStatic && params.length === 0 && rng.chance(1, 2)) special = "getter";
     for (const [l, sh] of addBoundLate) addBound(l, sh);
-    methods.push({ owner: owner.name, name: "m" + m, static: isStatic, lts, implLts, implBounds, self, params, ret, bounds, special });
+    methods.push({ owner: owner.name, name: "m" + m, static: isStatic, lts, implLts, implBounds, self, params, ret, bounds, special, forced });
   }
   return { seed, idx, opaques, structs, outs, methods };
 }
@@ -200,6 +204,7 @@ function retTy(r) {
     case "optref": return "Option<&" + lt(r.lt) + " " + inner + ">";
     case "struct": return inner;
     case "resstruct": return "Result<" + inner + ", ()>";
+    case "reserr": return "Result<Box<" + inner + ">, Box<" + r.err.ty + tyArgs(r.err.args) + ">>";
     default: return "Result<Box<" + inner + ">, ()>";
   }
 }
@@ -266,6 +271,7 @@ export function outlives(spec, m) {
   }
   if (m.ret.lt) ref(m.ret.lt, m.ret.args);
   defBounds(m.ret.ty, m.ret.args);
+  if (m.ret.err) defBounds(m.ret.err.ty, m.ret.err.args);
   // closure
   const all = new Set([...m.lts, ...m.implLts.filter((l) => l !== "static")]);
   const out = (x, y) => x === y || x === "static" || reach(x).has(y);
@@ -287,7 +293,7 @@ export function returnLifetimes(m) {
 /** for the evidence and the ground-truth validation: which parameters may lend to the return value */
 export function computeLenders(spec, m) {
   const { out } = outlives(spec, m);
-  const R = [...m.ret.args.filter((a) => a !== "static"), ...(m.ret.lt ? [m.ret.lt] : [])];
+  const R = [...m.ret.args.filter((a) => a !== "static"), ...(m.ret.lt ? [m.ret.lt] : []), ...(m.ret.err ? m.ret.err.args.filter((a) => a !== "static") : [])];
   const lends = (mentions) => mentions.some((x) => x && x !== "static" && R.some((r) => out(x, r)));
   const res = [];
   if (m.self && lends([m.self.lt, ...m.implLts])) res.push("self");
@@ -313,6 +319,9 @@ function catalogueSpec() {
     { name: "S0", lts: ["a", "b"], bounds: [], fields: [{ name: "f0", kind: "opaque", ty: "O0", lt: "a", args: [] }, { name: "f1", kind: "opaque", ty: "O0", lt: "b", args: [] }] },
     { name: "S1", lts: ["a"], bounds: [], fields: [{ name: "f0", kind: "slice", enc: "DiplomatStr", lt: "a", opt: true }, { name: "f1", kind: "opaque", ty: "O0", lt: "a", args: [] }] },
   ];
+  // a field `&'r T<'s>` whose reference slot and generic slot are different slots of the struct, declared in either order
+  structs.push({ name: "S2", lts: ["a", "b"], bounds: [["b", "a"]], fields: [{ name: "f0", kind: "opaque", ty: "O1", lt: "a", args: ["b"] }] });
+  structs.push({ name: "S3", lts: ["a", "b"], bounds: [["a", "b"]], fields: [{ name: "f0", kind: "opaque", ty: "O1", lt: "b", args: ["a"] }] });
   const outs = [{ name: "R0", lts: ["a", "b"], bounds: [], out: true, fields: [{ name: "f0", kind: "opaque", ty: "O0", lt: "b", args: [], opt: false }, { name: "f1", kind: "opaque", ty: "O0", lt: "a", args: [], opt: false }] }];
   const methods = [
     // struct slots instantiated with one lifetime
@@ -337,18 +346,68 @@ function catalogueSpec() {
     M("O0", "m10", { lts: ["a"], params: [{ name: "p0", kind: "struct", ty: "S0", args: ["static", "a"] }], ret: box("O1", ["a"]) }),
     // plain by-reference return and a getter-like accessor
     M("O1", "m11", { lts: ["a"], implLts: ["s0"], self: { lt: "a" }, ret: ref("O0", "a") }),
+    // the result borrows only through the *generic* lifetime of a struct field `&'r T<'x>`
+    M("O0", "m13", { lts: ["a", "b"], bounds: [["b", "a"]], params: [{ name: "p0", kind: "struct", ty: "S2", args: ["a", "b"] }], ret: box("O1", ["b"]) }),
+    M("O0", "m14", { lts: ["a", "b"], bounds: [["b", "a"]], params: [{ name: "p0", kind: "struct", ty: "S3", args: ["b", "a"] }], ret: box("O1", ["b"]) }),
+    // the error arm of a Result is an opaque that borrows from a slice argument (same and different lifetime as the Ok arm)
+    M("O0", "m15", { lts: ["a"], params: [sl("p0", "a")], ret: { kind: "reserr", ty: "O1", lt: null, args: ["a"], err: { ty: "O1", args: ["a"] } } }),
+    M("O0", "m16", { lts: ["a", "b"], params: [sl("p0", "a"), sl("p1", "b", "str")], ret: { kind: "reserr", ty: "O1", lt: null, args: ["a"], err: { ty: "O1", args: ["b"] } } }),
     M("O2", "m12", { lts: ["a"], implLts: ["s0", "s1"], self: { lt: "a" }, params: [{ name: "p0", kind: "optopaque", ty: "O0", lt: "a", args: [] }], ret: { kind: "optref", ty: "O0", lt: "a", args: [] } }),
   ];
   return { seed: 0, idx: -1, catalogue: true, opaques, structs, outs, methods };
 }
 
-export { genSpec, catalogueSpec };
+/** Signatures whose methods do NOT restate a bound that a used type's definition implies. Diplomat's own validation is
+ *  expected to reject them ("Method should explicitly include this lifetime bound"), and a rejected bridge needs no
+ *  checking. If a tree accepts one, C04 applies to it like to any accepted method: Rust's rules (implied bounds from the
+ *  well-formedness of the argument and return types) still make the extra parameter a lender, and the model says so. */
+function negativeSpecs() {
+  const O = (name, lts, bounds = []) => ({ name, lts, bounds });
+  const op = (name, ty, l, args = []) => ({ name, kind: "opaque", ty, lt: l, args });
+  const M = (owner, name, o) => ({ owner, name, static: !o.self, lts: o.lts || [], implLts: [], implBounds: [], self: o.self || null, params: o.params || [], ret: o.ret, bounds: o.bounds || [], special: null });
+  const box = (ty, args = []) => ({ kind: "box", ty, lt: null, args });
+  const fld = (name, l) => ({ name, kind: "opaque", ty: "O0", lt: l, args: [] });
+  const base = () => [O("O0", []), O("O1", ["a"]), O("O2", ["a", "b"], [["b", "a"]])];
+  const mk = (k, structs, methods) => ({ seed: 0, idx: -(10 + k), negative: true, opaques: base(), structs, outs: [], methods });
+  const P3 = { name: "S0", lts: ["a", "b", "c"], bounds: [["c", "b"]], fields: [fld("f0", "a"), fld("f1", "b"), fld("f2", "c")] };
+  const P3b = { name: "S0", lts: ["a", "b", "c"], bounds: [["c", "a"]], fields: [fld("f0", "a"), fld("f1", "b"), fld("f2", "c")] };
+  const S2 = { name: "S0", lts: ["a", "b"], bounds: [["b", "a"]], fields: [fld("f0", "a"), fld("f1", "b")] };
+  return [
+    // the same method lifetime in two slots, the definition's bound sits on the later of them
+    mk(0, [P3], [M("O0", "m0", { lts: ["a", "b"], params: [{ name: "p0", kind: "struct", ty: "S0", args: ["a", "a", "b"] }, op("p1", "O0", "b")], ret: box("O1", ["a"]) })]),
+    mk(1, [P3b], [M("O0", "m0", { lts: ["a", "b"], params: [{ name: "p0", kind: "struct", ty: "S0", args: ["a", "a", "b"] }, op("p1", "O0", "b")], ret: box("O1", ["a"]) })]),
+    // plain cases: a struct's / an opaque's definition bound left implicit
+    mk(2, [S2], [M("O0", "m0", { lts: ["a", "b"], params: [{ name: "p0", kind: "struct", ty: "S0", args: ["a", "b"] }, op("p1", "O0", "b")], ret: box("O1", ["a"]) })]),
+    mk(3, [], [M("O0", "m0", { lts: ["a", "b"], params: [op("p0", "O2", null, ["a", "b"]), op("p1", "O0", "b")], ret: box("O1", ["a"]) })]),
+  ];
+}
+
+/** a generated bridge in which one method drops one of the bounds it is forced to restate (see negativeSpecs) */
+function omitSpec(seed, idx) {
+  const rng = Rng.derive(seed, "gc-sim-omit", idx);
+  for (let tries = 0; tries < 40; tries++) {
+    const spec = genSpec(seed, 500000 + idx * 40 + tries);
+    const cands = spec.methods.filter((m) => m.forced && m.forced.length);
+    if (!cands.length) continue;
+    const m = rng.pick(cands);
+    const [l, sh] = rng.pick(m.forced);
+    m.bounds = m.bounds.filter((b) => !(b[0] === l && b[1] === sh));
+    spec.methods = [m]; // the other methods would only be rejected along with it or dilute the schedules
+    m.name = "m0";
+    spec.negative = true; spec.idx = 1000000 + idx;
+    return spec;
+  }
+  return null;
+}
+
+export { genSpec, catalogueSpec, negativeSpecs, omitSpec };
 
 // ---- CLI ---------------------------------------------------------------------------------------------
 if (process.argv[1] && process.argv[1].endsWith("gen.mjs")) {
   const args = process.argv.slice(2); const kv = {};
   for (let i = 0; i < args.length; i += 2) kv[args[i].replace(/^--/, "")] = args[i + 1];
-  const spec = kv.catalogue ? catalogueSpec() : genSpec(Number(kv.seed ?? 20261002), Number(kv.bridge ?? 0));
+  const spec = kv.catalogue ? catalogueSpec() : kv.negative !== undefined ? negativeSpecs()[Number(kv.negative)] : kv.omit !== undefined ? omitSpec(Number(kv.seed ?? 20261002), Number(kv.omit)) : genSpec(Number(kv.seed ?? 20261002), Number(kv.bridge ?? 0));
+  if (!spec) { console.log("NO-SPEC"); process.exit(3); }
   const out = kv.out;
   fs.mkdirSync(path.join(out, "src"), { recursive: true });
   fs.writeFileSync(path.join(out, "src", "lib.rs"), rustSource(spec));
